@@ -169,7 +169,7 @@ class StmtMixin:
         without the quantified spec axioms."""
         c = self.frame.contract
         hints = getattr(c, 'hints', None) if c is not None else None
-        if not hints or self.spec_mode:
+        if not hints or self.spec_mode or self.frame is not self.frames[0]:
             return
         rel = (getattr(node, 'lineno', 0) or 0) - (self.frame.finfo.lineno or 0)
         for n_, text in enumerate(hints.get(rel, ())):
@@ -381,7 +381,7 @@ class StmtMixin:
     def frame_write(self, obj, field, st, node):
         """C20 / frame conditions: a write to an object the caller handed in must be listed in
         the contract's `assigns`."""
-        if obj.origin != 'param' or self.spec_mode:
+        if obj.origin != 'param' or self.spec_mode or self.frames[0].contract is None:
             return
         allowed = self.contract_assigns()
         key = obj.name if field is None else '%s.%s' % (obj.name, field)
